@@ -669,6 +669,13 @@ fn candidate(prop: &str, r: &mut StdRng) -> (usize, Vec<Value>) {
                 (n, ops)
             }
         }
+        "C14" if r.gen_range(0..8) == 0 => {
+            // a long cube list most of whose members share a literal (absorption around list position 64, 128)
+            let n = r.gen_range(9..=12usize);
+            let base = if r.gen() { r.gen_range(56..72) } else { r.gen_range(120..136) };
+            let round = r.gen_range(0..16);
+            (n, crate::gen::two::long_list_ops(r, n, base, round))
+        }
         "C14" => {
             let n = r.gen_range(0..=10usize);
             let mut ops = Vec::new();
@@ -719,6 +726,11 @@ fn candidate(prop: &str, r: &mut StdRng) -> (usize, Vec<Value>) {
                 });
             }
             (n, ops)
+        }
+        "C16" if r.gen_range(0..6) == 0 => {
+            let n = r.gen_range(11..=12usize);
+            let round = r.gen_range(0..48);
+            (n, crate::gen::two::confusable_ops(r, n, round))
         }
         "C16" => {
             let n = r.gen_range(0..=12usize);
